@@ -17,7 +17,7 @@ bash MUTATION/demo.sh > $WT/demo_without.log 2>&1; WO=$?
 echo "suite_with_change: $T; demo_with_change_exit=$W; demo_without_change_exit=$WO" > $LOG
 if [ "$W" != "0" ] && [ "$WO" = "0" ] && echo "$T" | grep -q ", 0 failed"; then
   D=/verif/seeded/$NAME; mkdir -p $D
-  cp -r MUTATION/* $D/ 2>/dev/null
+  rsync -a --exclude build --exclude work --exclude target --exclude '*.raw' --max-size=300k MUTATION/ $D/ 2>/dev/null
   python3 - "$D" "$T" "$W" "$WO" "$NOTE" <<'PY'
 import json,sys
 d,t,w,wo,note=sys.argv[1:6]
